@@ -295,6 +295,22 @@ def handleServe (op : String) (args : List String) (impl : Option (List String))
   | "servereal", [_stream] =>
     -- the real agent behind the server: serving survives every stream
     some ⟨["ok"], impl.map fun out => if out == ["ok"] then "ok" else "bad:crash"⟩
+  | "slotop", [kind, text, exitS, mode, slotS, derS] =>
+    -- `(*server).ReadSlot` / `AttestSlot` with a fake PIV tool: refused on a remote-mode server
+    -- without running the tool; otherwise the tool is run with the action and the slot as given,
+    -- a non-zero exit is an error, and the certificate it prints is what the caller gets
+    match bytesOfHex slotS with
+    | some slot =>
+      let action := if kind == "read" then "read-certificate" else "attest"
+      let seen := hexOrDash (("-a\n" ++ action ++ "\n-s\n").toUTF8.toList ++ slot ++ [0x0a])
+      let expected :=
+        if mode == "remote" then ["err", "-"]
+        else if exitS != "0" then ["err", seen]
+        else if text == "cert" then ["ok " ++ derS, seen] else ["err", seen]
+      some ⟨expected, impl.map fun out => if out.head? == some "crash" then "bad:crash"
+        else if out == expected then "ok"
+        else if mode == "remote" then "bad:slot-operation-on-remote-server" else "bad:slot-operation"⟩
+    | none => some badProto
   | "slots", [textS, exitS, mode] =>
     match bytesOfHex textS with
     | some text =>
